@@ -7,15 +7,8 @@
 #include <unifex/tracing/async_stack.hpp>
 
 #include <fstream>
-#include <new>
 
-// ---- replaced global allocation functions (coroutine frames of task<> are allocated with ::operator new)
-void* operator new(std::size_t n) { void* p = std::malloc(n ? n : 1); if (!p) throw std::bad_alloc(); heapacct::add(p); return p; }
-void* operator new[](std::size_t n) { return ::operator new(n); }
-void operator delete(void* p) noexcept { if (p) { heapacct::del(p); std::free(p); } }
-void operator delete[](void* p) noexcept { ::operator delete(p); }
-void operator delete(void* p, std::size_t) noexcept { ::operator delete(p); }
-void operator delete[](void* p, std::size_t) noexcept { ::operator delete(p); }
+#include "heap_replace.hpp"
 
 using namespace coro_h;
 using json = nlohmann::json;
@@ -57,14 +50,14 @@ static json run_behaviour(const json& beh, World& w) {
   json out = json::array();
   size_t mark = 0;
   OpHandle* op = nullptr;
-  w.curk = 'C'; w.curn = 0;
+  w.cur().k = 'C'; w.cur().n = 0;
   vrt::ev("{\"e\":\"Connect\"}");
   op = make_op([&] { return unifex::connect(run(w, 0, FrameTag(&w, 0)), Recv{&w}); });
   w.destroyOp = [&op] { OpHandle* p = op; op = nullptr; vrt::ev("{\"e\":\"OpDestroy\"}"); delete p; };
   for (auto& st : beh["steps"]) {
     std::string k = st["k"].get<std::string>(); int n = st["n"].get<int>();
-    w.curk = k[0]; w.curn = n;
-    if (k == "S") { w.curk = 'C'; w.curn = 0; vrt::ev("{\"e\":\"StartBegin\"}"); if (op) op->start(); vrt::ev("{\"e\":\"StartEnd\"}"); }
+    w.cur().k = k[0]; w.cur().n = n;
+    if (k == "S") { w.cur().k = 'C'; w.cur().n = 0; vrt::ev("{\"e\":\"StartBegin\"}"); if (op) op->start(); vrt::ev("{\"e\":\"StartEnd\"}"); }
     else if (k == "X") { vrt::ev("{\"e\":\"ExtStop\"}"); w.src.request_stop(); }
     else if (k == "L") {
       auto& c = w.leaf[n];
@@ -89,11 +82,11 @@ static json run_behaviour(const json& beh, World& w) {
   vrt::ev("{\"e\":\"Drain\"}");
   for (int round = 0; round < 64; ++round) {
     bool any = false;
-    for (auto& [id, c] : w.leaf) if (c.complete) { any = true; w.curk = 'L'; w.curn = id; auto f = c.complete; f('d'); }
-    for (auto& [c, q] : w.ctxq) while (!q.empty()) { any = true; w.curk = 'C'; w.curn = c; auto it = std::move(q.front()); q.pop_front(); it.run(); }
+    for (auto& [id, c] : w.leaf) if (c.complete) { any = true; w.cur().k = 'L'; w.cur().n = id; auto f = c.complete; f('d'); }
+    for (auto& [c, q] : w.ctxq) while (!q.empty()) { any = true; w.cur().k = 'C'; w.cur().n = c; auto it = std::move(q.front()); q.pop_front(); it.run(); }
     if (!any) break;
   }
-  w.curk = '-'; w.curn = 0;
+  w.cur().k = '-'; w.cur().n = 0;
   if (op) { auto d = std::move(w.destroyOp); w.destroyOp = nullptr; if (d) d(); }
   json evs = json::array();
   for (; mark < w.obs.size(); ++mark) evs.push_back(ev_json(w.obs[mark]));
